@@ -3,7 +3,6 @@ package props
 import (
 	"context"
 	"fmt"
-	"net"
 	"os"
 	"path/filepath"
 	"regexp"
@@ -22,10 +21,6 @@ import (
 	ctrl "sigs.k8s.io/controller-runtime"
 	"sigs.k8s.io/controller-runtime/pkg/client/fake"
 
-	"google.golang.org/grpc"
-	"google.golang.org/grpc/credentials/insecure"
-	"google.golang.org/grpc/metadata"
-	"google.golang.org/grpc/test/bufconn"
 	"google.golang.org/protobuf/proto"
 	"google.golang.org/protobuf/types/known/durationpb"
 
@@ -341,32 +336,18 @@ func c16Prop(c *sim.Case) {
 		}
 	}
 
-	// half of the workloads go through the gRPC server the service runs (request-id and logging interceptors included),
-	// over an in-memory listener, instead of calling the filter directly
+	// half of the workloads go through the interceptor chain of the service's gRPC server (request-id propagation, logging
+	// middleware) and have their answers serialised, instead of calling the filter directly
+	var panics int64
 	var grpcCheck func(req *envoy.CheckRequest, n int64) (*envoy.CheckResponse, error)
 	if pickBool("via-grpc-server") {
-		lis := bufconn.Listen(1 << 20)
-		srv := server.New(full, filter.Register)
-		srv.Listen = func() (net.Listener, error) { return lis, nil }
-		if err := srv.PreRun(); err != nil {
-			c.Violation("server-error", "gRPC server set-up: %v", err)
-		}
-		go func() { _ = srv.Serve() }()
-		conn, err := grpc.NewClient("passthrough:///bufnet", grpc.WithTransportCredentials(insecure.NewCredentials()),
-			grpc.WithContextDialer(func(ctx context.Context, _ string) (net.Conn, error) { return lis.DialContext(ctx) }))
-		if err != nil {
-			c.Violation("server-error", "gRPC client: %v", err)
-		}
-		client := envoy.NewAuthorizationClient(conn)
-		defer func() { _ = conn.Close(); srv.GracefulStop() }()
+		through := sim.ThroughInterceptors(filter)
 		grpcCheck = func(req *envoy.CheckRequest, n int64) (*envoy.CheckResponse, error) {
-			ctx, cancel := context.WithTimeout(metadata.AppendToOutgoingContext(context.Background(), "x-request-id", fmt.Sprintf("rid-%d", n)), 60*time.Second)
-			defer cancel()
-			return client.Check(ctx, req)
+			return through(context.Background(), req)
 		}
 		c.Class("workload:via-grpc-server")
 	}
-	var inflight, maxInflight, checks, panics, hung, reqIDs int64
+	var inflight, maxInflight, checks, hung, reqIDs int64
 	check := func(t *c16Tenant, path, cookie string) *sim.Resp {
 		h := map[string]string{"x-tenant": t.name, "x-request-id": fmt.Sprintf("req-%d", atomic.AddInt64(&reqIDs, 1))}
 		if cookie != "" {
